@@ -25,6 +25,7 @@ type universe struct {
 	byInt    map[int64]int
 	byStr    map[string]int
 	intVals  bool
+	strVals  map[string]int
 }
 
 func safeInspect(v value.Value) (s string) {
@@ -56,6 +57,12 @@ func (u *universe) finish() {
 		}
 	}
 	u.intVals = u.val(1).IsSmallInt()
+	u.strVals = map[string]int{}
+	for j := 1; j <= 2; j++ {
+		if str, ok := u.val(j).SafeAsReference().(value.String); ok {
+			u.strVals[string(str)] = j
+		}
+	}
 	u.valNames = map[string]int{}
 	for j := 1; j <= 2; j++ {
 		u.valNames[safeInspect(u.val(j))] = j
@@ -104,13 +111,7 @@ func (u *universe) valIdx(v value.Value) int {
 			if u.intVals {
 				return 0
 			}
-			switch string(str) {
-			case "1":
-				return 1
-			case "2":
-				return 2
-			}
-			return 0
+			return u.strVals[string(str)]
 		}
 	}
 	return u.valNames[safeInspect(v)]
@@ -168,7 +169,13 @@ func initUniverses() {
 	uStr = &universe{
 		mk:   []func() value.Value{strKey("a"), strKey("b"), strKey("c"), strKey("d"), strKey("e")},
 		nset: 4,
-		val:  func(j int) value.Value { return value.Ref(value.String(fmt.Sprint(j))) },
+		// value 1 is the zero value of the specialised value type (""), value 2 is "2"
+		val: func(j int) value.Value {
+			if j == 1 {
+				return value.Ref(value.String(""))
+			}
+			return value.Ref(value.String(fmt.Sprint(j)))
+		},
 	}
 	uStr.finish()
 }
@@ -805,10 +812,8 @@ func (s *mapSys) check(o vm.HashRecord, m model, last string) (vs []viol, expand
 			add("iteration "+res, "via "+it.name)
 		}
 	}
-	if len(vs) > 0 {
-		return vs, false
-	}
-	// ---- tier 3: derived objects; the state itself is sound
+	// lookups and iteration are observers: a wrong answer is reported, the table itself is sound and is explored further
+	// ---- tier 3: derived objects
 	all := append([]*mapKind{k}, k.peers...)
 	for _, pk := range all {
 		pairName := k.name + " vs " + pk.name
